@@ -157,6 +157,11 @@ func cmdCheck(args []string) int {
 	if *tier == "thorough" {
 		timeout = 120
 	}
+	if v := os.Getenv("GOVC_TIMEOUT"); v != "" {
+		if n, err := strconv.Atoi(v); err == nil && n > 0 {
+			timeout = n
+		}
+	}
 	sv, err := newSolver(timeout)
 	if err != nil {
 		fmt.Fprintln(os.Stderr, err)
@@ -256,6 +261,14 @@ func cmdCheck(args []string) int {
 			total++
 			if o.Status == "PROVED" {
 				discharged++
+				if *dump != "" && os.Getenv("GOVC_DUMPALL") != "" {
+					os.MkdirAll(*dump, 0o755)
+					os.WriteFile(*dump+"/"+smtSym(o.Name)+".smt2", []byte(u.Ctx.query(o, true)), 0o644)
+					os.WriteFile(*dump+"/"+smtSym(o.Name)+".sliced.smt2", []byte(u.Ctx.slicedQuery(o, true)), 0o644)
+				}
+				if os.Getenv("GOVC_LIST") != "" {
+					fmt.Printf("%-9s %-70s %-10s %.2fs  %s  %s\n", o.Status, o.Name, o.Backend, o.SolverS, pos, truncate(o.Text, 120))
+				}
 				backends[o.Backend]++
 				if len(samples) < 3 {
 					samples = append(samples, map[string]interface{}{"obligation": o.Name, "kind": o.Kind, "clause": o.Text, "pos": pos, "backend": o.Backend, "goal_smt": truncate(o.Goal.S, 600)})
